@@ -123,12 +123,14 @@ class TaskProc(Proc):
 
 
 class Point:
-    __slots__ = ('n', 'cur_enabled', 'desc')
+    __slots__ = ('n', 'cur_enabled', 'desc', 'lockp')
 
-    def __init__(self, n, cur_enabled, desc) -> None:
+    def __init__(self, n, cur_enabled, desc, lockp=False) -> None:
         self.n = n
         self.cur_enabled = cur_enabled
         self.desc = desc
+        # the running process is parked at an operation on a lock file
+        self.lockp = lockp
 
 
 class Execution:
@@ -144,6 +146,14 @@ class Execution:
         n = 0
         for p, c in zip(self.points[:i], self.choices[:i]):
             if c != 0 and p.cur_enabled:
+                n += 1
+        return n
+
+    def lock_preemptions_before(self, i: int) -> int:
+        """Preemptions taken at a lock-file operation."""
+        n = 0
+        for p, c in zip(self.points[:i], self.choices[:i]):
+            if c != 0 and p.cur_enabled and p.lockp:
                 n += 1
         return n
 
@@ -294,11 +304,15 @@ class Sched:
                                 f'of {len(enabled)}')
                     cur_en = (cur is not None and enabled[0] is cur
                               and cur.status == 'fs' and not cur.boundary)
+                    # (taking or releasing a lock file, not looking at it)
+                    lockp = bool(cur_en and cur.at[0] in (
+                        'open-w', 'unlink', 'remove') and any(
+                        str(x).endswith('.lock') for x in cur.at[1]))
                     ex.points.append(Point(
                         len(enabled), cur_en,
                         [(q.pid, q.at[:2] if q.status == 'fs' else
                           ('wake' if q in sleeping else 'run',))
-                         for q in enabled]))
+                         for q in enabled], lockp))
                     ex.choices.append(idx)
                 p = enabled[idx]
                 if p in sleeping:
@@ -340,8 +354,10 @@ class Sched:
 
 
 def explore(run, bound: int, *, prefixes=None, on_exec=None,
-            max_execs: int | None = None):
-    """Enumerate every schedule with at most ``bound`` preemptions.
+            max_execs: int | None = None, lock_bonus: int = 0):
+    """Enumerate every schedule with at most ``bound`` preemptions, plus at
+    most ``lock_bonus`` further preemptions that are taken at lock-file
+    operations (where the interesting windows of a lock protocol open).
     ``run(prefix)`` performs one execution and returns (Execution, payload).
     Depth-first over deviation prefixes; returns statistics.  ``prefixes``
     restricts the search to the subtrees below the given prefixes (used to
@@ -365,24 +381,31 @@ def explore(run, bound: int, *, prefixes=None, on_exec=None,
         for i in range(len(prefix), len(ex.points)):
             pt = ex.points[i]
             cost = ex.preemptions_before(i)
+            lockc = ex.lock_preemptions_before(i)
             if pt.cur_enabled:
                 cost += 1
-            if cost > bound:
+                if pt.lockp:
+                    lockc += 1
+            # preemptions at lock points are charged to the bonus first
+            if cost - min(lockc, lock_bonus) > bound:
                 continue
             for alt in range(1, pt.n):
                 stack.append(ex.choices[:i] + [alt])
     return stats
 
 
-def children(ex: Execution, prefix, bound: int):
+def children(ex: Execution, prefix, bound: int, lock_bonus: int = 0):
     """The deviation prefixes directly below one execution."""
     out = []
     for i in range(len(prefix), len(ex.points)):
         pt = ex.points[i]
         cost = ex.preemptions_before(i)
+        lockc = ex.lock_preemptions_before(i)
         if pt.cur_enabled:
             cost += 1
-        if cost > bound:
+            if pt.lockp:
+                lockc += 1
+        if cost - min(lockc, lock_bonus) > bound:
             continue
         for alt in range(1, pt.n):
             out.append(ex.choices[:i] + [alt])
